@@ -82,10 +82,10 @@ type Backend struct {
 	mu       sync.Mutex
 	calls    []*Call
 	sessions []*Sess
-	Handler  Handler          // nil: DefaultHandler
-	Observe  func(c *Call)    // called (under no lock) right after a call is recorded, before the handler
-	Mechs    []string         // AuthenticateMechanisms for SASL sessions
-	OnNew    func(s *Sess)    // called when a session is created
+	Handler  Handler            // nil: DefaultHandler
+	Observe  func(c *Call)      // called (under no lock) right after a call is recorded, before the handler
+	Mechs    []string           // AuthenticateMechanisms for SASL sessions
+	OnNew    func(s *Sess)      // called when a session is created
 	NewErr   func(id int) error // if set and returns non-nil, NewSession fails with it
 	PreAuth  bool
 }
@@ -428,14 +428,14 @@ func (s SessSASL) Authenticate(mech string) (sasl.Server, error) {
 // SessBasic hides the optional interfaces (plain imapserver.Session only).
 type SessBasic struct{ s *Sess }
 
-func (b SessBasic) Close() error                           { return b.s.Close() }
-func (b SessBasic) Login(u, p string) error                { return b.s.Login(u, p) }
+func (b SessBasic) Close() error                                 { return b.s.Close() }
+func (b SessBasic) Login(u, p string) error                      { return b.s.Login(u, p) }
 func (b SessBasic) Create(m string, o *imap.CreateOptions) error { return b.s.Create(m, o) }
-func (b SessBasic) Delete(m string) error                  { return b.s.Delete(m) }
-func (b SessBasic) Rename(m, n string) error               { return b.s.Rename(m, n) }
-func (b SessBasic) Subscribe(m string) error               { return b.s.Subscribe(m) }
-func (b SessBasic) Unsubscribe(m string) error             { return b.s.Unsubscribe(m) }
-func (b SessBasic) Unselect() error                        { return b.s.Unselect() }
+func (b SessBasic) Delete(m string) error                        { return b.s.Delete(m) }
+func (b SessBasic) Rename(m, n string) error                     { return b.s.Rename(m, n) }
+func (b SessBasic) Subscribe(m string) error                     { return b.s.Subscribe(m) }
+func (b SessBasic) Unsubscribe(m string) error                   { return b.s.Unsubscribe(m) }
+func (b SessBasic) Unselect() error                              { return b.s.Unselect() }
 func (b SessBasic) Select(m string, o *imap.SelectOptions) (*imap.SelectData, error) {
 	return b.s.Select(m, o)
 }
@@ -452,7 +452,9 @@ func (b SessBasic) Poll(w *imapserver.UpdateWriter, allow bool) error { return b
 func (b SessBasic) Idle(w *imapserver.UpdateWriter, stop <-chan struct{}) error {
 	return b.s.Idle(w, stop)
 }
-func (b SessBasic) Expunge(w *imapserver.ExpungeWriter, u *imap.UIDSet) error { return b.s.Expunge(w, u) }
+func (b SessBasic) Expunge(w *imapserver.ExpungeWriter, u *imap.UIDSet) error {
+	return b.s.Expunge(w, u)
+}
 func (b SessBasic) Search(k imapserver.NumKind, c *imap.SearchCriteria, o *imap.SearchOptions) (*imap.SearchData, error) {
 	return b.s.Search(k, c, o)
 }
